@@ -33,10 +33,11 @@ def asserted(tf, layer):
 def lattice_events(tf, tfl, ctx, rng, n):
   evs = []
   bounds = [(None, None), (0.0, 2.0), (-1.0, None), (None, 3.0), (None, -2.0), (-3.0, -1.0), (0.5, None)]
-  for j in range(n):
-    rank = int(rng.integers(1, 4))
-    sizes = [int(rng.integers(2, 5)) for _ in range(rank)]
-    if int(np.prod(sizes)) > 40:
+  high = [8, 9] if ctx.quick else [7, 8, 9, 10]   # 2^rank lattices: the outer-product helper changes strategy past 7 factors
+  for j in range(n + len(high)):
+    rank = int(rng.integers(1, 4)) if j < n else high[j - n]
+    sizes = [int(rng.integers(2, 5)) for _ in range(rank)] if j < n else [2] * rank
+    if j < n and int(np.prod(sizes)) > 40:
       continue
     c = latcfg.base(sizes)
     for d in range(rank):
@@ -54,8 +55,8 @@ def lattice_events(tf, tfl, ctx, rng, n):
     lo, hi = bounds[j % len(bounds)]
     c["hasMin"], c["hasMax"] = lo is not None, hi is not None
     c["omin"], c["omax"] = rat(Fraction(lo) if lo is not None else 0), rat(Fraction(hi) if hi is not None else 1)
-    init = "linear" if j % 3 else "random"
-    units = int(rng.choice([1, 2]))
+    init = "linear" if (j % 3 or j >= n) else "random"
+    units = int(rng.choice([1, 2])) if j < n else 1
     extra = {"kernel_initializer": "linear_initializer" if init == "linear" else "random_monotonic_initializer"}
     try:
       layer = latcfg.make_layer(tfl, c, units, **extra)
